@@ -98,3 +98,48 @@ Example C09_bytes_example :
              format_bytes glen data
              = Some [120;32;61;32;97;46;48;46;101;53;32;45;32;45;49;32;35;32;99;10;121;32;61;32;91;49;44;32;50;93;10].
 Proof. eexists. repeat split; vm_compute; reflexivity. Qed.
+
+(* Byte level, every source that lexes cleanly and contains no heredoc — quoted templates
+   with "$"/"%" chunks, "$${"/"%%{" escapes and ${ … } / %{ … } sequences (nested to any
+   depth) included — and none of the hazard patterns of FormatBytes.hazard_free. *)
+Theorem C09_bytes_relex_exact_quoted :
+  forall (g : list Z -> Z) (data : list Z) (ks : list rtok),
+    lex_main data = Some ks -> noheredoc ks = true -> hazard_free ks = true ->
+    exists ks', lex_main (write (format (writer_tokens g 0 ks))) = Some ks' /\
+                writer_tokens g 0 ks' = format (writer_tokens g 0 ks).
+Proof. exact relex_exact_quoted. Qed.
+Print Assumptions C09_bytes_relex_exact_quoted.
+
+Theorem C09_bytes_same_tokens_quoted :
+  forall g data ks,
+    lex_main data = Some ks -> noheredoc ks = true -> hazard_free ks = true ->
+    exists ks', lex_main (write (format (writer_tokens g 0 ks))) = Some ks' /\ map rtyb ks' = map rtyb ks.
+Proof. exact relex_stable_quoted. Qed.
+Print Assumptions C09_bytes_same_tokens_quoted.
+
+Theorem C09_bytes_idempotent_quoted :
+  forall g data ks out,
+    lex_main data = Some ks -> noheredoc ks = true -> hazard_free ks = true ->
+    format_bytes g data = Some out -> format_bytes g out = Some out.
+Proof. exact bytes_idempotent_quoted. Qed.
+Print Assumptions C09_bytes_idempotent_quoted.
+
+(* any clean source without heredocs, hazard patterns included: the local layout check suffices *)
+Theorem C09_bytes_relex_exact_of_layout_quoted :
+  forall g data ks,
+    lex_main data = Some ks -> noheredoc ks = true ->
+    layout_okb (format (writer_tokens g 0 ks)) = true ->
+    exists ks', lex_main (write (format (writer_tokens g 0 ks))) = Some ks' /\
+                writer_tokens g 0 ks' = format (writer_tokens g 0 ks).
+Proof. exact relex_exact_nohd. Qed.
+Print Assumptions C09_bytes_relex_exact_of_layout_quoted.
+
+(* the five theorems already in Props/C09.v still hold with the same statements *)
+Check relex_exact_simple. Check relex_stable_simple. Check bytes_idempotent_simple. Check relex_exact_main. Check relex_stable_refuted.
+
+(* Non-vacuity: x = "a${ b }c%{ if d }$${e} 100%%{%{ endif }" (newline) y="${ {a=1} }$" *)
+Example C09_bytes_example_quoted :
+  let data := [120;32;61;32;34;97;36;123;32;98;32;125;99;37;123;32;105;102;32;100;32;125;36;36;123;101;125;32;49;48;48;37;37;123;37;123;32;101;110;100;105;102;32;125;34;10;
+               121;61;34;36;123;32;123;97;61;49;125;32;125;36;34;10] in
+  exists ks, lex_main data = Some ks /\ noheredoc ks = true /\ hazard_free ks = true /\ simple ks = false.
+Proof. eexists. repeat split; vm_compute; reflexivity. Qed.
